@@ -812,13 +812,123 @@ class _CalcRuns:
         return answer
 
 
-def _param_roles(caller, method, cdefs):
+OP_KEYS = ("task", "operation", "throughput", "latency", "service_time", "processing_time", "error_rate", "duration")  # documented keys of a per-task record (race.json / results index)
+# record key -> (canonical role label of the calculator method that computes it, store queries of which at least one must be issued for it, metric the value is computed for)
+OP_FEEDS = {"throughput": ("summary_stats", ("get_stats", "get_mean", "get_median"), "throughput"), "latency": ("single_latency", ("get_percentiles",), "latency"),
+            "service_time": ("single_latency", ("get_percentiles",), "service_time"), "processing_time": ("single_latency", ("get_percentiles",), "processing_time"),
+            "error_rate": ("error_rate", ("get_error_rate",), None), "duration": ("duration", ("get_one",), None)}
+
+
+def _op_record_params(gs_methods, mfuncs, ginit, ao):
+    """add_op_metrics is RUN with a distinct marker per parameter on a freshly constructed results object: ('ok', {record key: parameter whose marker the key holds | None}, record,
+    parameters) | ('unknown', message). No obligation is recorded here (O8.3 reports on the outcome; the mapping is also what the per-task roles are derived from)."""
+    try:
+        obj = Record()
+        mm = _Machine(methods=gs_methods, functions=mfuncs)
+        k0, v0 = mm.run(ginit, [None], recv=obj)
+        before = {a: list(v) for a, v in obj.fields.items() if isinstance(v, list)}
+        aparams = params_of(ao)[1:]
+        amark = {p_: f"<{p_}>" for p_ in aparams}
+        k1, v1 = mm.run(ao, [], {p_: ({"m": amark[p_]} if i == len(aparams) - 1 and p_ not in OP_KEYS else amark[p_]) for i, p_ in enumerate(aparams)}, recv=obj)
+        new_recs = [r_ for a, v in obj.fields.items() if isinstance(v, list) for r_ in v[len(before.get(a, [])):] if isinstance(r_, dict)]
+        if k0 != "return" or k1 != "return" or len(new_recs) != 1:
+            return ("unknown", f"add_op_metrics does not store exactly one record on a freshly constructed results object ({k1} {v1!r}; {len(new_recs)} record(s))"[:240])
+        rec = new_recs[0]
+        inv = {mk: p_ for p_, mk in amark.items()}
+        return ("ok", {k: inv.get(rec.get(k)) if isinstance(rec.get(k), str) else None for k in OP_KEYS}, rec, aparams)
+    except (CannotEval, _Unsup) as x:
+        return ("unknown", f"add_op_metrics is not evaluable with markers: {x}")
+
+
+def _per_task_scope(gm, ao, key_param, call):
+    """(function, call node, single-assignment locals of the function, task variable) for the place where the calculator stores the per-task record: the call <results>.add_op_metrics(...)
+    wherever it sits (the main routine or a helper extracted from its loop body). By data flow: the task variable is the name X whose `X.name` reaches the record's `task` key (followed
+    through the locals that hold it); if that cannot be read off, the variable of the enclosing loop. (None, None, {}, None) when the call is not located."""
+    sites = [(f, c) for f in [call] + [f_ for f_ in gm.values() if f_ is not call] for c in source.calls_in(f)
+             if isinstance(c.func, ast.Attribute) and c.func.attr == ao.name and not (is_self_attr(c.func) and ao.name in gm)]
+    if not sites:
+        return None, None, {}, None
+    f, c = sites[0]
+    defs = local_defs(f)
+    tv = None
+    if key_param and key_param.get("task"):
+        t = _il(bind_args(c, ao).get(key_param["task"]), defs)
+        if t is not None and t.endswith(".name") and t[:-len(".name")].isidentifier():
+            tv = t[:-len(".name")]
+            # ... accepted only when X is bound once per task: the variable of an enclosing loop or a parameter of the function
+            per_task = {x.id for lp in source.ancestors(c) if isinstance(lp, (ast.For, ast.comprehension)) for x in ast.walk(lp.target) if isinstance(x, ast.Name)} | set(params_of(f)[1:])
+            tv = tv if tv in per_task else None
+    return f, c, defs, tv or _loop_var(c)
+
+
+def _feeding_method(e, gm):
+    """the calculator method whose result an (inlined) argument expression is: self.<method>(...) -> def; None for anything else."""
+    return gm[e.func.attr] if isinstance(e, ast.Call) and isinstance(e.func, ast.Attribute) and is_self_attr(e.func) and e.func.attr in gm else None
+
+
+def _reachable(methods, f):
+    """f and the methods of the same class it reaches through self.<m>(...) / cls.<m>(...) calls (an extracted helper belongs to its caller)."""
+    seen, work = [], [f]
+    while work:
+        g = work.pop()
+        if any(g is x for x in seen):
+            continue
+        seen.append(g)
+        for c in source.calls_in(g):
+            if isinstance(c.func, ast.Attribute) and isinstance(c.func.value, ast.Name) and c.func.value.id in ("self", "cls") and c.func.attr in methods:
+                work.append(methods[c.func.attr])
+    return seen
+
+
+def _selector_and_encoder(met, mfuncs, methods, pct_method, runs):
+    """(percentile selector, percentile key encoder) BY ROLE, decided on values: among the one-parameter module-level functions the percentile method (with the helpers it calls)
+    uses, the selector is the one whose result for some sample count is the percentile list that reached the store's percentile query in the recorded run, the encoder the one that
+    maps each of those percentiles to a key of the method's result. Either is None when no function or more than one qualifies (the caller then takes the conventional name)."""
+    asked = [list(r.get("percentiles")) for q, r, _n in runs[0][2] if q == "get_percentiles" and isinstance(r.get("percentiles"), (list, tuple))]
+    result = runs[0][1] if runs[0][0] == "return" and isinstance(runs[0][1], dict) else None
+    cands = []
+    for g in _reachable(methods, pct_method):
+        for c in source.calls_in(g):
+            f_ = mfuncs.get(c.func.id) if isinstance(c.func, ast.Name) else None
+            if f_ is not None and len(params_of(f_)) == 1 and not f_.args.kwonlyargs and not any(f_ is x for x in cands):
+                cands.append(f_)
+    selectors, encoders = [], []
+    for f_ in cands:
+        try:
+            consts = _selector_reads(met, f_, mfuncs)[0]
+            if asked and any(_Machine(functions=mfuncs, names=consts).run(f_, [n_]) == ("return", asked[0]) for n_ in (_NORMAL_COUNT, _OTHER_COUNT, 1, 5, 50, 5000, 10**6)):
+                selectors.append(f_)
+            elif asked and result is not None and all(kv[0] == "return" and isinstance(kv[1], str) and kv[1] in result for kv in (_Machine(functions=mfuncs, names=consts).run(f_, [p_]) for p_ in asked[0])):
+                encoders.append(f_)
+        except (CannotEval, _Unsup):
+            continue
+    return (selectors[0] if len(selectors) == 1 else None), (encoders[0] if len(encoders) == 1 else None)
+
+
+def _percentile_function(store, gp):
+    """the in-memory store's percentile function BY ROLE: the method get_percentiles reaches (self.<m>(sorted values, percentile)) that takes two values and, run on the sorted
+    values [1.0, 3.0] and the percentile 50, returns a number between them. None unless exactly one method qualifies."""
+    out = []
+    for g in _reachable(store.methods, gp)[1:]:
+        own = [p_ for p_ in params_of(g) if p_ not in ("self", "cls")]
+        if len(own) != 2 or g.args.kwonlyargs:
+            continue
+        try:
+            kind, val = store.run(g, [], [[1.0, 3.0], 50])
+        except (CannotEval, _Unsup):
+            continue
+        if kind == "return" and isinstance(val, _NUM) and not isinstance(val, bool) and 1.0 <= val <= 3.0:
+            out.append(g)
+    return out[0] if len(out) == 1 else None
+
+
+def _param_roles(caller, method, cdefs, tv=None):
     """role of each parameter of a per-task calculator method, derived from what the calculator's main loop passes: `<task>.name` -> task, `<task>.operation.type` -> operation type,
-    a string literal -> metric name (<task> = the variable of the loop the call sits in). {} when no call site is found."""
+    a string literal -> metric name (<task> = the task variable `tv` of the per-task scope; without one, the variable of the loop the call sits in). {} when no call site is found."""
     roles = {}
     for c in source.calls_in(caller):
         if isinstance(c.func, ast.Attribute) and is_self_attr(c.func, method.name):
-            lv = _loop_var(c)
+            lv = tv or _loop_var(c)
             for p_, a in bind_args(c, method).items():
                 t = _il(a, cdefs)
                 r = "task" if lv and t == f"{lv}.name" else "operation_type" if lv and t == f"{lv}.operation.type" else "metric" if isinstance(a, ast.Constant) and isinstance(a.value, str) else None
@@ -969,14 +1079,41 @@ def run(chk):
     call = gm.get("__call__")
     if call is None:
         raise AnchorMissing("GlobalStatsCalculator.__call__")
-    cdefs = local_defs(call)
     T_, OT_ = "task-T", "optype-OT"
-    recorded = {}
-    for mname, metric in (("summary_stats", "throughput"), ("single_latency", "service_time"), ("error_rate", None)):
-        f = gm.get(mname)
-        if f is None:
-            raise AnchorMissing(f"GlobalStatsCalculator.{mname}")
-        proles = _param_roles(call, f, cdefs)
+    # by role: WHICH calculator methods compute the per-task statistics is read off the data flow into the per-task record (add_op_metrics is run with markers: record key -> parameter;
+    # the argument bound to that parameter at the calculator's call, followed through the locals that hold it, is the result of self.<method>(...)): the method feeding `throughput`
+    # is the summary method, those feeding `latency` / `service_time` / `processing_time` the percentile method(s), the one feeding `error_rate` the error-rate method - whatever they
+    # are called. Only where that data flow cannot be read the methods of the conventional names are taken; keys of findings carry the ROLE label, the texts the actual name.
+    ginit, ao = gsm.get("__init__"), gsm.get("add_op_metrics")
+    if ginit is None or ao is None or len(params_of(ginit)) != 2:
+        raise AnchorMissing("GlobalStats.__init__(self, d) / GlobalStats.add_op_metrics")
+    gs_methods = _mro_methods(met, GS)
+    oprec = _op_record_params(gs_methods, mfuncs, ginit, ao)
+    ptf, aoc0, cdefs, tv = _per_task_scope(gm, ao, oprec[1] if oprec[0] == "ok" else None, call)
+    if ptf is None:
+        ptf, cdefs = call, local_defs(call)
+    feeds = {}
+    if aoc0 is not None and oprec[0] == "ok":
+        b0 = bind_args(aoc0, ao)
+        feeds = {k: source.inline_node(b0[oprec[1][k]], cdefs) for k in OP_FEEDS if oprec[1].get(k) is not None and b0.get(oprec[1][k]) is not None}
+    role_methods = {}  # role label -> [method def, ...] (by data flow; the conventional name where the data flow is not readable)
+    for k, (label, _q, _metric) in OP_FEEDS.items():
+        f_ = _feeding_method(feeds[k], gm) if k in feeds else None
+        if f_ is not None and f_ not in role_methods.setdefault(label, []):
+            role_methods[label].append(f_)
+    for label in ("summary_stats", "single_latency", "error_rate"):
+        if not role_methods.get(label):
+            if gm.get(label) is None:
+                raise AnchorMissing(f"GlobalStatsCalculator.{label} (no calculator method feeds the per-task record key(s) of that role, and no method of that name)")
+            role_methods[label] = [gm[label]]
+    label_of = {}
+    for label, fs in role_methods.items():
+        for f_ in fs:
+            label_of.setdefault(f_.name, label if f_ is fs[0] else f"{label}[{f_.name}]")
+
+    def run_per_task(f, metric):
+        """(kwargs, [run with samples, run without samples]) for one per-task method run against the stand-in store | a message why it cannot be (not recognised)."""
+        proles = _param_roles(ptf, f, cdefs, tv)
         dflt = set(params_of(f)[len(params_of(f)) - len(f.args.defaults):]) if f.args.defaults else set()
         kwargs, unresolved = {}, []
         for p_ in params_of(f)[1:]:
@@ -985,18 +1122,30 @@ def run(chk):
                 kwargs[p_] = {"task": T_, "operation_type": OT_, "metric": metric or "service_time"}[r]
             elif p_ not in dflt:
                 unresolved.append(p_)
-        if unresolved or "task" not in proles.values() or "operation_type" not in proles.values():
-            chk.unknown("O8.1", f"{mname}: which parameter takes the task name / the operation type is not derivable from the calls in __call__ (parameters {unresolved or params_of(f)[1:]})", f)
-            continue
+        if unresolved or "task" not in proles.values():
+            return f"{f.name}: which parameter takes the task name / the operation type is not derivable from the calls in {ptf.name} (parameters {unresolved or params_of(f)[1:]})"
         try:
-            runs = [calc.run(f, [], kwargs, answer=calc.standard_answer()), calc.run(f, [], kwargs, answer=calc.standard_answer(empty=True))]
+            return kwargs, [calc.run(f, [], kwargs, answer=calc.standard_answer()), calc.run(f, [], kwargs, answer=calc.standard_answer(empty=True))]
         except (CannotEval, _Unsup) as x:
-            chk.unknown("O8.1", f"{mname} is not evaluable against the stand-in store: {x}", f)
+            return f"{f.name} is not evaluable against the stand-in store: {x}"
+
+    recorded, attempted = {}, set()  # role label -> (method, kwargs, runs)
+    for label, f, metric in [(label_of[f_.name], f_, m_) for role, m_ in (("summary_stats", "throughput"), ("single_latency", "service_time"), ("error_rate", None)) for f_ in role_methods[role]]:
+        mname = f.name
+        if label in recorded or label in attempted:
+            continue  # one method feeding record keys of two roles is run once (what it feeds is O8.3's business)
+        attempted.add(label)
+        res = run_per_task(f, metric)
+        if not isinstance(res, str) and "operation_type" not in _param_roles(ptf, f, cdefs, tv).values():
+            res = f"{mname}: which parameter takes the operation type is not derivable from the calls in {ptf.name} (parameters {params_of(f)[1:]})"
+        if isinstance(res, str):
+            chk.unknown("O8.1", res, f)
             continue
+        kwargs, runs = res
         if runs[0][0] == "raise":
             chk.unknown("O8.1", f"{mname} raises against the stand-in store: {runs[0][1]}", f)
             continue
-        recorded[mname] = (kwargs, runs)
+        recorded[label] = (f, kwargs, runs)
         seen_q = {}
         for kind, val, calls in runs:
             for q, r, node in calls:
@@ -1008,25 +1157,36 @@ def run(chk):
             bad = [(r, n_) for r, n_ in lst if r.get("sample_type") is not calc.normal]
             st_txt = lambda v: "not passed / None (all sample types)" if v is None else f"SampleType.{v.fields['name']}" if isinstance(v, _Member) else repr(v)
             chk.ob("O8.1", f"{mname}: {q}(...) passes the Normal sample type", not bad, (bad or lst)[0][1], f"sample_type={st_txt((bad or lst)[0][0].get('sample_type'))}",
-                   key=f"{_M}:GlobalStatsCalculator.{mname}:{q}:normal")
+                   key=f"{_M}:GlobalStatsCalculator.{label}:{q}:normal")
             bad = [(r, n_) for r, n_ in lst if r.get("task") != T_ or r.get("operation_type") != OT_]
             r0 = (bad or lst)[0][0]
             chk.ob("O8.1", f"{mname}: {q}(...) filters by task and operation type", not bad, (bad or lst)[0][1],
                    f"task={'the task' if r0.get('task') == T_ else repr(r0.get('task'))} operation_type={'the operation type' if r0.get('operation_type') == OT_ else repr(r0.get('operation_type')) + ' (not passed?)'}",
-                   key=f"{_M}:GlobalStatsCalculator.{mname}:{q}:filters")
-    sl = gm["single_latency"]
-    if "single_latency" in recorded:
-        kwargs, runs = recorded["single_latency"]
-        asked = [(r.get("percentiles"), n_) for q, r, n_ in runs[0][2] if q == "get_percentiles"]
+                   key=f"{_M}:GlobalStatsCalculator.{label}:{q}:filters")
+    # by role: the percentile selector / the percentile key encoder are the module-level functions whose values reach the store's percentile query / the keys of the per-task
+    # percentile record (decided on the recorded run); the functions of the conventional names only where that is not readable
+    ps = enc = None
+    for f_ in role_methods["single_latency"]:
+        if label_of[f_.name] in recorded and (ps is None or enc is None):
+            ps_r, enc_r = _selector_and_encoder(met, mfuncs, calc.methods, f_, recorded[label_of[f_.name]][2])
+            ps, enc = ps or ps_r, enc or enc_r
+    ps = ps or met.func("percentiles_for_sample_size")
+    enc = enc or met.func("encode_float_key")
+    sel = None
+    if any(label_of[f_.name] in recorded for f_ in role_methods["single_latency"]):
         try:
-            sel = {n_: _Machine(functions=mfuncs, names=_selector_reads(met, met.func("percentiles_for_sample_size"), mfuncs)[0]).run(met.func("percentiles_for_sample_size"), [n_])
-                   for n_ in (_NORMAL_COUNT, _OTHER_COUNT)}
+            sel = {n_: _Machine(functions=mfuncs, names=_selector_reads(met, ps, mfuncs)[0]).run(ps, [n_]) for n_ in (_NORMAL_COUNT, _OTHER_COUNT)}
         except (CannotEval, _Unsup) as x:
-            sel = None
-            chk.unknown("O8.1", f"percentile selector not evaluable: {x}", sl)
-        if sel is not None and (not asked or sel[_NORMAL_COUNT][0] != "return"):
-            chk.unknown("O8.1", "single_latency: no percentile query reaches the store for a task with normal samples (the percentile set cannot be compared)", sl)
-        elif sel is not None:
+            chk.unknown("O8.1", f"percentile selector not evaluable: {x}", role_methods["single_latency"][0])
+    for sl in role_methods["single_latency"] if sel is not None else []:
+        label = label_of[sl.name]
+        if label not in recorded:
+            continue
+        _f, kwargs, runs = recorded[label]
+        asked = [(r.get("percentiles"), n_) for q, r, n_ in runs[0][2] if q == "get_percentiles"]
+        if not asked or sel[_NORMAL_COUNT][0] != "return":
+            chk.unknown("O8.1", f"{sl.name}: no percentile query reaches the store for a task with normal samples (the percentile set cannot be compared)", sl)
+        else:
             want = list(sel[_NORMAL_COUNT][1])
             bad = [(pl, n_) for pl, n_ in asked if pl is None or list(pl) != want]
             ok = not bad and runs[1][0] == "return"
@@ -1036,26 +1196,26 @@ def run(chk):
                           f"the normal count selects {want}")
             elif runs[1][0] != "return":
                 detail = f"a task without normal samples: {runs[1][1]}"
-            chk.ob("O8.1", "percentile set selected by the NORMAL sample count", ok, (bad or asked)[0][1], detail, key=f"{_M}:GlobalStatsCalculator.single_latency:percentile-set")
-    erc = [c for c in source.calls_in(call) if isinstance(c.func, ast.Attribute) and is_self_attr(c.func, "error_rate")]
-    if not erc or _loop_var(erc[0]) is None:
-        chk.unknown("O8.1", "the call of self.error_rate(...) inside the loop over the tasks is not located in __call__", call)
+            chk.ob("O8.1", "percentile set selected by the NORMAL sample count", ok, (bad or asked)[0][1], detail, key=f"{_M}:GlobalStatsCalculator.{label}:percentile-set")
+    er = role_methods["error_rate"][0]
+    erc = [c for c in source.calls_in(ptf) if isinstance(c.func, ast.Attribute) and is_self_attr(c.func, er.name)]
+    if not erc or (tv or _loop_var(erc[0])) is None:
+        chk.unknown("O8.1", f"the call of self.{er.name}(...) for the task of the per-task record is not located in {ptf.name}", ptf)
     else:
-        # by role: both arguments (followed through the locals that hold them) are read off the task the enclosing loop iterates over
-        lv = _loop_var(erc[0])
-        ep = params_of(gm["error_rate"])[1:]
-        eb = bind_args(erc[0], gm["error_rate"])
+        # by role: both arguments (followed through the locals that hold them) are read off the task whose record is stored (the task variable of the per-task scope)
+        lv = tv or _loop_var(erc[0])
+        ep = params_of(er)[1:]
+        eb = bind_args(erc[0], er)
         got = [_il(eb.get(p_), cdefs) for p_ in ep]
-        # (which parameter is forwarded as the store's task / operation-type filter is decided by the run of error_rate above: its `filters` obligation)
-        ok = len(ep) == 2 and len(erc[0].args) + len(erc[0].keywords) == 2 and sorted(got, key=str) == sorted([f"{lv}.name", f"{lv}.operation.type"]) \
-            and sorted(_param_roles(call, gm["error_rate"], cdefs).values()) == ["operation_type", "task"]
-        chk.ob("O8.1", "error rate requested for (task name, operation type)", ok, erc[0], f"error_rate({', '.join(str(g) for g in got)}) in the loop over `{lv}`",
+        # (which parameter is forwarded as the store's task / operation-type filter is decided by the run of the error-rate method above: its `filters` obligation)
+        # (a further parameter - with a default, or passed something that is not read off the task - is not this obligation's business: the run above decides what reaches the store)
+        ok = got.count(f"{lv}.name") == 1 and got.count(f"{lv}.operation.type") == 1 and {"operation_type", "task"} <= set(_param_roles(ptf, er, cdefs, tv).values())
+        chk.ob("O8.1", "error rate requested for (task name, operation type)", ok, erc[0], f"{er.name}({', '.join(str(g) for g in got)}) for the task `{lv}`",
                key=f"{_M}:GlobalStatsCalculator.__call__:error_rate-arguments")
 
     # ---- O8.2 percentile selector ------------------------------------------------------------------------------------------------------------------
     chk.rule("O8.2", "the percentile set is a function of the count only: total over [1, inf) (15 boundary counts), every list ends with 100 and contains 50 for counts > 1, sets grow monotonically; count < 1 raises", 17,
              "a sample count at a threshold (10, 100, ...) gets no / the wrong percentile set")
-    ps = met.func("percentiles_for_sample_size")
     if len(params_of(ps)) != 1:
         raise AnchorMissing("percentiles_for_sample_size(<count>)")
     p0 = params_of(ps)[0]
@@ -1088,7 +1248,6 @@ def run(chk):
             seen_lists.append(vals)
 
     # the key under which a percentile is stored and looked up must tell the percentiles apart (writer and both reporters use the same encoder)
-    enc = met.func("encode_float_key")
     allp = sorted({v for vs in seen_lists for v in vs}) if seen_lists else []
     if len(params_of(enc)) == 1 and allp:
         try:
@@ -1108,7 +1267,7 @@ def run(chk):
         chk.unknown("O8.2", "percentile key encoder: no one-parameter function / no percentile table to evaluate it on", enc)
     # the encoder is used where the keys are written (the results calculator) and where they are looked up (at least one site outside the calculator); a side that cannot be located is
     # 'not recognised' (the sites may have been folded into a helper), never a falsified obligation
-    uses = [c for c in source.package_calls(repo, "encode_float_key")]
+    uses = [c for c in source.package_calls(repo, enc.name)]
     writers = [c for c in uses if source.enclosing_class(c) is GC]
     readers = [c for c in uses if source.enclosing_class(c) is not GC]
     if writers and readers:
@@ -1120,13 +1279,11 @@ def run(chk):
     chk.rule("O8.3", "results class: each attribute is initialised from the key of the same name; as_dict exposes exactly those attributes; every attribute the calculator assigns exists there; "
              "op-metrics records are built from the parameters of the same name and looked up by task name (falling back to the operation only for records without a task)", 55,
              "a metric is written under one name and read back under another (or from another task's record): compare / list show None or the wrong task's numbers")
-    ginit = gsm.get("__init__")
     ad = gsm.get("as_dict")
-    if ginit is None or ad is None or len(params_of(ginit)) != 2:
-        raise AnchorMissing("GlobalStats.__init__(self, d) / GlobalStats.as_dict")
+    if ad is None:
+        raise AnchorMissing("GlobalStats.as_dict")
     # decided on values: the constructor is RUN (machine) once without a dictionary (=> the declared attributes) and once on a dictionary that stores a distinct marker under every
     # attribute name; each attribute must then hold the marker of ITS name, and as_dict of that object must give the dictionary back (the write / read-back round trip of race.json)
-    gs_methods = _mro_methods(met, GS)
     attrs = {}
     try:
         o0 = Record()
@@ -1162,78 +1319,79 @@ def run(chk):
         if isinstance(n, ast.Assign) and isinstance(n.targets[0], ast.Attribute) and u(n.targets[0].value) == rv[0].targets[0].id:
             a = n.targets[0].attr
             chk.ob("O8.3", f"calculator assigns result.{a}: declared in the results class", a in attrs, n, "" if a in attrs else "written but never read back (not a declared attribute/key)", key=f"{_M}:GlobalStatsCalculator.__call__:assign:{a}")
-    ao = gsm.get("add_op_metrics")
-    if ao is None:
-        raise AnchorMissing("GlobalStats.add_op_metrics")
-    # decided on values: add_op_metrics is RUN with a distinct marker per parameter on a freshly constructed results object; the record it stores must carry each of the documented
-    # keys, each holding the marker of exactly one parameter (which one = `key_param`, used below to follow the calculator's arguments into the record)
-    OP_KEYS = ("task", "operation", "throughput", "latency", "service_time", "processing_time", "error_rate", "duration")
+    # decided on values: add_op_metrics is RUN with a distinct marker per parameter on a freshly constructed results object (_op_record_params, before O8.1); the record it stores must
+    # carry each of the documented keys, each holding the marker of exactly one parameter (which one = `key_param`, used below to follow the calculator's arguments into the record)
     key_param = {}
-    try:
-        obj = Record()
-        mm = _Machine(methods=gs_methods, functions=mfuncs)
-        k0, v0 = mm.run(ginit, [None], recv=obj)
-        before = {a: list(v) for a, v in obj.fields.items() if isinstance(v, list)}
-        aparams = params_of(ao)[1:]
-        amark = {p_: f"<{p_}>" for p_ in aparams}
-        k1, v1 = mm.run(ao, [], {p_: ({"m": amark[p_]} if i == len(aparams) - 1 and p_ not in OP_KEYS else amark[p_]) for i, p_ in enumerate(aparams)}, recv=obj)
-        new_recs = [r_ for a, v in obj.fields.items() if isinstance(v, list) for r_ in v[len(before.get(a, [])):] if isinstance(r_, dict)]
-        if k0 != "return" or k1 != "return" or len(new_recs) != 1:
-            chk.unknown("O8.3", f"add_op_metrics does not store exactly one record on a freshly constructed results object ({k1} {v1!r}; {len(new_recs)} record(s))"[:240], ao)
-        else:
-            rec = new_recs[0]
-            inv = {mk: p_ for p_, mk in amark.items()}
-            key_param = {k: inv.get(rec.get(k)) if isinstance(rec.get(k), str) else None for k in OP_KEYS}
-            wrong = {k: rec.get(k) for k in OP_KEYS if key_param[k] is None}
-            dup = sorted(k for k in OP_KEYS if key_param[k] is not None and list(key_param.values()).count(key_param[k]) > 1)
-            misnamed = {k: p_ for k, p_ in key_param.items() if p_ is not None and p_ != k and k in aparams}
-            ok = not wrong and not dup and not misnamed
-            chk.ob("O8.3", "op-metrics record: each key holds the parameter of the same name", ok, ao,
-                   "" if ok else (f"key(s) {sorted(wrong)} do not hold a parameter: {wrong}" if wrong else f"keys {dup} hold the same parameter `{key_param[dup[0]]}`" if dup
-                                  else f"key -> parameter: {misnamed} although a parameter of the key's name exists")[:240], key=f"{_M}:GlobalStats.add_op_metrics:record")
-            if wrong or dup:
-                key_param = None  # already reported: the follow-up below has nothing to follow
-    except (CannotEval, _Unsup) as x:
-        chk.unknown("O8.3", f"add_op_metrics is not evaluable with markers: {x}", ao)
-    aoc = [c for c in source.calls_in(call) if isinstance(c.func, ast.Attribute) and c.func.attr == ao.name and rv and u(c.func.value) == rv[0].targets[0].id]
-    lv = _loop_var(aoc[0]) if aoc else None
+    if oprec[0] != "ok":
+        chk.unknown("O8.3", oprec[1], ao)
+    else:
+        key_param, rec, aparams = oprec[1], oprec[2], oprec[3]
+        wrong = {k: rec.get(k) for k in OP_KEYS if key_param[k] is None}
+        dup = sorted(k for k in OP_KEYS if key_param[k] is not None and list(key_param.values()).count(key_param[k]) > 1)
+        misnamed = {k: p_ for k, p_ in key_param.items() if p_ is not None and p_ != k and k in aparams}
+        ok = not wrong and not dup and not misnamed
+        chk.ob("O8.3", "op-metrics record: each key holds the parameter of the same name", ok, ao,
+               "" if ok else (f"key(s) {sorted(wrong)} do not hold a parameter: {wrong}" if wrong else f"keys {dup} hold the same parameter `{key_param[dup[0]]}`" if dup
+                              else f"key -> parameter: {misnamed} although a parameter of the key's name exists")[:240], key=f"{_M}:GlobalStats.add_op_metrics:record")
+        if wrong or dup:
+            key_param = None  # already reported: the follow-up below has nothing to follow
+    lv = tv
     if key_param is None:
         pass
-    elif not aoc or lv is None or not key_param:
-        chk.unknown("O8.3", "the call <results>.add_op_metrics(...) inside the loop over the tasks is not located in __call__ (or the record keys could not be mapped to parameters)", call)
+    elif aoc0 is None or lv is None or not key_param:
+        chk.unknown("O8.3", "the call <results>.add_op_metrics(...) for the task at hand is not located in the calculator (or the record keys could not be mapped to parameters)", call)
     else:
-        b = bind_args(aoc[0], ao)
-        # by data flow: record key -> parameter (run above) -> argument at the call (followed through the locals that hold it) -> the calculator method that computed it and the
-        # metric / task / operation type it was computed for (parameter roles of those methods as derived for O8.1)
+        b = bind_args(aoc0, ao)
+        # by data flow: record key -> parameter (run above) -> argument at the call (followed through the locals that hold it) -> the calculator method that computed it (whatever it is
+        # called) and the metric / task / operation type it was computed for (parameter roles of those methods as derived for O8.1). What KIND of statistic that method computes is decided
+        # on values: run against the stand-in store it must ask for the statistic the key stands for (percentiles for the three time keys, the error rate, ...)
         arg = {k: (source.inline_node(b[key_param[k]], cdefs) if b.get(key_param[k]) is not None else None) for k in OP_KEYS}
 
-        def computed_by(e):
-            """(calculator method, {role: text}) for an argument that is the result of self.<method>(...)."""
-            if isinstance(e, ast.Call) and isinstance(e.func, ast.Attribute) and is_self_attr(e.func) and e.func.attr in gm:
-                f_ = gm[e.func.attr]
-                pr = _param_roles(call, f_, cdefs)
-                ba = bind_args(e, f_)
-                dflt = dict(zip(params_of(f_)[len(params_of(f_)) - len(f_.args.defaults):], f_.args.defaults)) if f_.args.defaults else {}
-                out = {}
-                for p_, r in pr.items():
-                    v = ba.get(p_, dflt.get(p_))
-                    out[r] = v.value if isinstance(v, ast.Constant) else (u(v) if v is not None else None)
-                return e.func.attr, out
-            return None, {}
+        def computed_for(e, f_):
+            """{role: text} for an argument that is the result of self.<f_>(...)."""
+            pr = _param_roles(ptf, f_, cdefs, tv)
+            ba = bind_args(e, f_)
+            dflt = dict(zip(params_of(f_)[len(params_of(f_)) - len(f_.args.defaults):], f_.args.defaults)) if f_.args.defaults else {}
+            out = {}
+            for p_, r in pr.items():
+                v = ba.get(p_, dflt.get(p_))
+                out[r] = v.value if isinstance(v, ast.Constant) else (u(v) if v is not None else None)
+            return out
 
-        problems = []
-        for k, meth, metric in (("throughput", "summary_stats", "throughput"), ("latency", "single_latency", "latency"), ("service_time", "single_latency", "service_time"),
-                                ("processing_time", "single_latency", "processing_time"), ("error_rate", "error_rate", None), ("duration", "duration", None)):
-            m_, ro = computed_by(arg[k])
-            if m_ != meth:
-                problems.append(f"'{k}' <- {short(arg[k], 60) if arg[k] is not None else 'nothing'} (expected the result of self.{meth})")
+        problems, unrecognised = [], []
+        for k, (label, kind_queries, metric) in OP_FEEDS.items():
+            f_ = _feeding_method(arg[k], gm) if arg[k] is not None else None
+            if f_ is None:
+                if arg[k] is None or isinstance(arg[k], (ast.Constant, ast.Dict, ast.List, ast.Tuple)):
+                    problems.append(f"'{k}' <- {short(arg[k], 60) if arg[k] is not None else 'nothing'} (expected the result of a calculator method asking the store for {' / '.join(kind_queries)})")
+                else:
+                    unrecognised.append(f"'{k}' <- {short(arg[k], 60)}: not the result of one calculator method")
+                continue
+            ro = computed_for(arg[k], f_)
+            # the statistic this method asks the store for (its run for O8.1 where there is one)
+            res = recorded.get(label_of.get(f_.name))
+            res = (res[1], res[2]) if res is not None else run_per_task(f_, metric)
+            if isinstance(res, str) or res[1][0][0] == "raise":
+                unrecognised.append(f"'{k}' <- self.{f_.name}(...): " + (res if isinstance(res, str) else f"raises against the stand-in store: {res[1][0][1]}"))
+                continue
+            asked = sorted({q for _k, _v, calls_ in res[1] for q, _r, _n in calls_})
+            if not set(asked) & set(kind_queries):
+                problems.append(f"'{k}' <- self.{f_.name}(...), which asks the store for {asked or 'nothing'} and never for {' / '.join(kind_queries)}")
+            elif metric is not None and "metric" not in ro:
+                # the method takes no metric name (one method per metric): decided on values - the metric its queries of that kind name
+                names = sorted({str(r_.get("name")) for _k, _v, calls_ in res[1] for q, r_, _n in calls_ if q in kind_queries})
+                if names != [metric]:
+                    problems.append(f"'{k}' <- self.{f_.name}(...), which asks the store for metric(s) {names}")
             elif metric is not None and ro.get("metric") != metric:
-                problems.append(f"'{k}' <- self.{meth} for metric {ro.get('metric')!r}")
-            elif ro.get("task") != f"{lv}.name" or (meth != "duration" and ro.get("operation_type") != f"{lv}.operation.type"):
-                problems.append(f"'{k}' <- self.{meth} for task {ro.get('task')} / operation type {ro.get('operation_type')}")
+                problems.append(f"'{k}' <- self.{f_.name} for metric {ro.get('metric')!r}")
+            elif ro.get("task") != f"{lv}.name" or (label != "duration" and ro.get("operation_type") != f"{lv}.operation.type"):
+                problems.append(f"'{k}' <- self.{f_.name} for task {ro.get('task')} / operation type {ro.get('operation_type')}")
         if _il(b.get(key_param["task"]), cdefs) != f"{lv}.name" or _il(b.get(key_param["operation"]), cdefs) != f"{lv}.operation.name":
-            problems.append(f"'task' <- {_il(b.get(key_param['task']), cdefs)}, 'operation' <- {_il(b.get(key_param['operation']), cdefs)} in the loop over `{lv}`")
-        chk.ob("O8.3", "each op-metrics field is computed for the metric of the same name", not problems, aoc[0], "; ".join(problems)[:300], key=f"{_M}:GlobalStatsCalculator.__call__:op-metrics-fields")
+            problems.append(f"'task' <- {_il(b.get(key_param['task']), cdefs)}, 'operation' <- {_il(b.get(key_param['operation']), cdefs)} for the task `{lv}`")
+        if problems or not unrecognised:
+            chk.ob("O8.3", "each op-metrics field is computed for the metric of the same name", not problems, aoc0, "; ".join(problems)[:300], key=f"{_M}:GlobalStatsCalculator.__call__:op-metrics-fields")
+        else:
+            chk.unknown("O8.3", "how the per-task record fields are computed is not recognised: " + "; ".join(unrecognised)[:300], aoc0)
     record_key_agreement(chk, "O8.3", met)
 
     # ---- O8.4 race file agreement ------------------------------------------------------------------------------------------------------------------------
@@ -1297,6 +1455,21 @@ def run(chk):
                 read |= {y.attr for y in ast.walk(props[x.attr]) if is_self_attr(y)} if x.attr in props else {x.attr}
         return read.pop() if len(read) == 1 else None
 
+    adefs_ = {k: v for k, v in local_defs(asd).items() if k != dname}
+
+    def resolved(e):
+        """an as_dict value with the locals that hold it replaced by their definitions and a parameterless helper `self.<m>()` of the class replaced by what it returns."""
+        e = source.inline_node(e, adefs_)
+        for _ in range(3):
+            if isinstance(e, ast.Call) and not e.args and not e.keywords and isinstance(e.func, ast.Attribute) and is_self_attr(e.func) and e.func.attr in rm and e.func.attr not in props:
+                rets_ = [n for n in walk_body(rm[e.func.attr]) if isinstance(n, ast.Return) and n.value is not None]
+                if len(rets_) != 1:
+                    break
+                e = source.inline_node(rets_[0].value, local_defs(rm[e.func.attr]))
+            else:
+                break
+        return e
+
     for param, e in b.items():
         e2 = source.inline_node(e, fdefs)
         key = None
@@ -1325,13 +1498,14 @@ def run(chk):
         else:
             chk.ob("O8.4", f"optional key '{key}' written by as_dict", found, e, "", key=f"{_M}:Race:key:{key}")
         if wsrc is not None:
-            wa = written_attr(wsrc)
+            wa = written_attr(resolved(wsrc))
             ra = attr_of_param.get(param)
             if wa is None or ra is None:
                 chk.unknown("O8.4", f"key '{key}': the attribute it is written from ({wa}) / the attribute parameter `{param}` initialises ({ra}) is not located", e)
             else:
                 chk.ob("O8.4", f"key '{key}' round-trips into the attribute it was written from", wa == ra, e, f"written from self.{wa}, read into self.{ra}", key=f"{_M}:Race:roundtrip:{key}")
     rs = cond.get("results", uncond.get("results"))
+    rs = resolved(rs) if rs is not None else None
     rattr = attr_of_param.get([p_ for p_, e_ in b.items() if any(source.is_const(x, "results") for x in ast.walk(e_))][0]) if any(source.is_const(x, "results") for e_ in b.values() for x in ast.walk(e_)) else None
     if rs is None and not modelled:
         chk.unknown("O8.4", "the value written under 'results' is not located in Race.as_dict", asd)
@@ -1340,8 +1514,13 @@ def run(chk):
     else:
         # by role: what is stored is the complete as_dict() of the attribute the key is read back into (nothing filtered, nothing renamed)
         ok = rs is not None and P.is_(rs, f"self.{rattr}.as_dict()")
-        chk.ob("O8.4", "results written from results.as_dict()", ok, rs if rs is not None else asd, "" if ok else (f"'results' <- {short(rs, 120)}" if rs is not None else "'results' is never written"),
-               key=f"{_M}:Race.as_dict:results")
+        if not ok and rs is not None and not any(is_self_attr(x, rattr) for x in ast.walk(rs)):
+            # what is written does not visibly read the attribute at all (computed elsewhere): not located, hence not decided
+            chk.unknown("O8.4", f"the value written under 'results' ({short(rs, 100)}) is not recognised as computed from self.{rattr}", asd)
+        else:
+            rs_site = cond.get("results", uncond.get("results"))
+            chk.ob("O8.4", "results written from results.as_dict()", ok, rs_site if rs_site is not None else asd, "" if ok else (f"'results' <- {short(rs, 120)}" if rs is not None else "'results' is never written"),
+                   key=f"{_M}:Race.as_dict:results")
     # Race.as_dict writes the results under a TRUTHINESS test of the results object: that is a presence test only as long as the results class defines neither __len__ nor
     # __bool__ (a results object without per-task rows would otherwise be dropped from race.json although it carries all global metrics)
     gs_cls = met.cls("GlobalStats")
@@ -1358,8 +1537,13 @@ def run(chk):
         chk.unknown("O8.4", "the write / the read of the 'race-timestamp' key is not located", asd)
     else:
         conv = lambda e_: sorted({last_attr(x.func) for x in ast.walk(e_) if isinstance(x, ast.Call) and last_attr(x.func) not in (None, "get")})
-        ok = conv(ts) == ["to_iso8601"] and conv(rt) == ["from_iso8601"]
-        chk.ob("O8.4", "timestamp written/read with the inverse ISO-8601 conversions", ok, ts, f"written through {conv(ts)}, read through {conv(rt)}", key=f"{_M}:Race:timestamp-conversions")
+        ts_r = resolved(ts)  # through the local / the helper that holds the converted value
+        ok = conv(ts_r) == ["to_iso8601"] and conv(rt) == ["from_iso8601"]
+        if not ok and not set(conv(ts_r) + conv(rt)) <= {"to_iso8601", "from_iso8601"}:
+            # a conversion this rule does not know (a helper it cannot look into): not decided; no conversion at all / the same direction twice is located and wrong
+            chk.unknown("O8.4", f"'race-timestamp' is written through {conv(ts_r)} and read through {conv(rt)}: not recognised as the ISO-8601 conversion pair", ts)
+        else:
+            chk.ob("O8.4", "timestamp written/read with the inverse ISO-8601 conversions", ok, ts, f"written through {conv(ts_r)}, read through {conv(rt)}", key=f"{_M}:Race:timestamp-conversions")
 
     # ---- O8.6 error rate -------------------------------------------------------------------------------------------------------------------------------------
     chk.rule("O8.6", "in-memory error rate: counts records with success is False over all matching service_time records (task, operation type, sample type) and divides by their number", 4,
@@ -1421,7 +1605,8 @@ def run(chk):
     chk.rule("O8.7", "in-memory percentile == documented linear interpolation: rank == p/100 * (n - 1); exact rank -> sorted[int(rank)]; else lo + (hi - lo) * (rank - floor(rank)) with "
              "lo = sorted[floor(rank)], hi = sorted[ceil(rank)]; the list handed in is sorted(values) of the filtered records", 5,
              "any value set with n >= 2: percentiles not between min and max / p100 != max / p50 != median")
-    pv = _need(im, "percentile_value", "InMemoryMetricsStore")
+    # by role: the percentile function is the two-value method the store's get_percentiles reaches (whatever it is called); the conventional name where that is not readable
+    pv = (_percentile_function(store, store.methods["get_percentiles"]) if "get_percentiles" in store.methods else None) or _need(im, "percentile_value", "InMemoryMetricsStore")
     if len(params_of(pv)) < 2:
         raise AnchorMissing("percentile_value(sorted_values, percentile)")
     sv, pc = params_of(pv)[-2:]
@@ -1634,13 +1819,14 @@ def run(chk):
         chk.unknown("O8.8", f"get_mean / get_median are not evaluable end to end on the representative records: {undecided}", gme)
     else:
         chk.ob("O8.8", "mean / median of the in-memory store == mean / median of the selected raw values (end to end)", ok, gmd, detail, key=f"{_M}:InMemoryMetricsStore:mean-median:values")
-    ss = gm["summary_stats"]
+    ss = role_methods["summary_stats"][0]
     # decided on values: summary_stats is RUN against the stand-in store, whose answers differ per query and per metric asked for; the summary must carry, under each name, the
     # statistic of that meaning of the REQUESTED metric (queries for another metric are answered with decoys)
-    sroles = _param_roles(call, ss, cdefs)
+    sroles = _param_roles(ptf, ss, cdefs, tv)
     skw = {p_: {"task": T_, "operation_type": OT_, "metric": "throughput"}[r] for p_, r in sroles.items() if r in ("task", "operation_type", "metric")}
-    if sorted(sroles.values()) != ["metric", "operation_type", "task"] or len(params_of(ss)) != 4:
-        chk.unknown("O8.8", "summary_stats: which parameter takes the metric name / task name / operation type is not derivable from the call in __call__", ss)
+    s_dflt = set(params_of(ss)[len(params_of(ss)) - len(ss.args.defaults):]) if ss.args.defaults else set()
+    if sorted(r for r in sroles.values() if r != "?") != ["metric", "operation_type", "task"] or any(p_ not in skw and p_ not in s_dflt for p_ in params_of(ss)[1:]):
+        chk.unknown("O8.8", f"{ss.name}: which parameter takes the metric name / task name / operation type is not derivable from the call in {ptf.name}", ss)
     else:
         def summary_answer(q, r):
             right = r.get("name") == "throughput"
@@ -1655,7 +1841,7 @@ def run(chk):
             kind2, got2, calls2 = calc.run(ss, [], skw, answer=lambda q, r: summary_answer(q, dict(r, name="throughput")))
         except (CannotEval, _Unsup) as x:
             kind = None
-            chk.unknown("O8.8", f"summary_stats is not evaluable against the stand-in store: {x}", ss)
+            chk.unknown("O8.8", f"{ss.name} is not evaluable against the stand-in store: {x}", ss)
         if kind is not None:
             want = {"min": 1.0, "mean": 4.0, "median": 3.0, "max": 9.0, "unit": "ops/s"}
             # the second run answers every query as if it were for the requested metric: it isolates "copied under the name of the same meaning" from "asked for the right metric"
@@ -1670,7 +1856,7 @@ def run(chk):
                        (f"{bad[0][0]} is asked for metric {bad[0][1].get('name')!r} instead of the requested one" if bad else "" if ok else f"-> {kind} {got!r}"[:260]),
                        key=f"{_M}:GlobalStatsCalculator.summary_stats:requested-metric")
             else:
-                chk.unknown("O8.8", "summary_stats: the mean / median / statistics queries are not all located (queries seen: " + ", ".join(sorted({q for q, _, _ in calls})) + ")", ss)
+                chk.unknown("O8.8", f"{ss.name}: the mean / median / statistics queries are not all located (queries seen: " + ", ".join(sorted({q for q, _, _ in calls})) + ")", ss)
 
     # ---- O8.9 no truthiness on optional numerics ------------------------------------------------------------------------------------------------------------------------
     chk.rule("O8.9", "values returned by the store's mean/median queries (floats or None, 0 is a legitimate statistic) are tested with `is (not) None`, never by truthiness", 1,
@@ -1679,15 +1865,16 @@ def run(chk):
     # decided on values for the per-task methods: the method is RUN against the stand-in store with ONE optional statistic answered 0.0 (all others positive); the 0.0 must arrive in
     # the result under that statistic's name, whatever tests it passed on the way (the finding is keyed by the ROLE of the statistic: get_mean -> mean)
     decided = set()
-    for mname in ("summary_stats", "single_latency"):
-        if mname not in recorded:
+    for label in [label_of[f_.name] for role in ("summary_stats", "single_latency") for f_ in role_methods[role]]:
+        if label not in recorded:
             continue
-        kwargs = recorded[mname][0]
+        f, kwargs, _runs = recorded[label]
+        mname = f.name
         try:
             verdicts = []
             for role, q in (("mean", "get_mean"), ("median", "get_median")):
                 base = calc.standard_answer()
-                kind, got, calls_ = calc.run(gm[mname], [], kwargs, answer=lambda q_, r, q=q, base=base: 0.0 if q_ == q else base(q_, r))
+                kind, got, calls_ = calc.run(f, [], kwargs, answer=lambda q_, r, q=q, base=base: 0.0 if q_ == q else base(q_, r))
                 if q not in {c_[0] for c_ in calls_}:
                     continue  # this method does not ask for that statistic
                 if kind != "return" or not isinstance(got, dict):
@@ -1698,9 +1885,9 @@ def run(chk):
         decided.add(mname)
         for role, ok, got in verdicts:
             found += 1
-            chk.ob("O8.9", f"{mname}: a {role} of 0 is reported as 0 (the optional statistic `{role}` is not tested by truthiness)", ok, gm[mname],
+            chk.ob("O8.9", f"{mname}: a {role} of 0 is reported as 0 (the optional statistic `{role}` is not tested by truthiness)", ok, f,
                    "" if ok else f"the store answers {role} = 0.0 (every other statistic positive) and the summary carries {role} = {got.get(role)!r}: a value of 0 is treated as missing",
-                   key=f"{_M}:GlobalStatsCalculator.{mname}:truthiness:{role}")
+                   key=f"{_M}:GlobalStatsCalculator.{label}:truthiness:{role}")
     for mname, f in gm.items():
         if mname in decided:
             continue
@@ -1714,7 +1901,7 @@ def run(chk):
                     if isinstance(a, ast.Name) and a.id in opt:
                         found += 1
                         chk.ob("O8.9", f"{mname}: optional statistic `{a.id}` tested by truthiness", False, n, f"`{short(t, 60)}`: a value of 0 is treated as missing",
-                               key=f"{_M}:GlobalStatsCalculator.{mname}:truthiness:{opt[a.id]}")
+                               key=f"{_M}:GlobalStatsCalculator.{label_of.get(mname, mname)}:truthiness:{opt[a.id]}")
     if found == 0:
         chk.ob("O8.9", "no truthiness test on optional statistics in the calculator", True, GC, "")
     # advisory O8.5 / system stats
@@ -1764,6 +1951,14 @@ _ADD_CALL = ("                    result.add_op_metrics(\n                      
              "                        self.merge(self.track.meta_data, self.challenge.meta_data, task.operation.meta_data, task.meta_data),\n")
 _KEY_METHODS = ("        return [v.get(\"task\", v[\"operation\"]) for v in self.op_metrics]\n\n    def metrics(self, task):\n        # ensure we can read race.json files before Rally 0.8.0\n"
                 "        for r in self.op_metrics:\n            if r.get(\"task\", r[\"operation\"]) == task:\n                return r\n        return None\n")
+
+_TASK_BODY = ("                t = task.name\n                op_type = task.operation.type\n                error_rate = self.error_rate(t, op_type)\n                duration = self.duration(t)\n"
+              "                if task.operation.include_in_reporting or error_rate > 0:\n                    self.logger.debug(\"Gathering request metrics for [%s].\", t)\n" + _ADD_CALL + "                    )\n")
+_TASK_HELPER = ("    def _add_task_metrics(self, result, task):\n        t = task.name\n        op_type = task.operation.type\n        error_rate = self.error_rate(t, op_type)\n"
+                "        if not task.operation.include_in_reporting and error_rate <= 0:\n            return\n        self.logger.debug(\"Gathering request metrics for [%s].\", t)\n"
+                "        result.add_op_metrics(\n            t,\n            task.operation.name,\n            self.summary_stats(\"throughput\", t, op_type),\n            self.single_latency(t, op_type),\n"
+                "            self.single_latency(t, op_type, metric_name=\"service_time\"),\n            self.single_latency(t, op_type, metric_name=\"processing_time\"),\n            error_rate,\n"
+                "            self.duration(t),\n            self.merge(self.track.meta_data, self.challenge.meta_data, task.operation.meta_data, task.meta_data),\n        )\n\n")
 
 VARIANTS = [
     V("sample type dropped at one query", "break", _M, "        mean = self.store.get_mean(metric_name, task=task_name, operation_type=operation_type, sample_type=SampleType.Normal)", "        mean = self.store.get_mean(metric_name, task=task_name, operation_type=operation_type)", "O8.1"),
@@ -1895,5 +2090,60 @@ VARIANTS = [
     [V("per-shard flattening in a helper", "keep", _M, "        flat_values = [w for v in values for w in v] if values else []\n", "        flat_values = self._flatten(values)\n"),
      V("", "keep", _M, "    def ml_processing_time_stats(self):", "    @staticmethod\n    def _flatten(arrays):\n        flat = []\n        for a in arrays or []:\n            flat += a\n        return flat\n\n    def ml_processing_time_stats(self):")],
     [V("per-shard flattening helper keeps the last array only", "break", _M, "        flat_values = [w for v in values for w in v] if values else []\n", "        flat_values = self._flatten(values)\n", "O8.10"),
-     V("", "break", _M, "    def ml_processing_time_stats(self):", "    @staticmethod\n    def _flatten(arrays):\n        flat = []\n        for a in arrays or []:\n            flat = a\n        return flat\n\n    def ml_processing_time_stats(self):")],
+     V("", "break", _M, "    def ml_processing_time_stats(self):", "    @staticmethod\n    def _flatten(arrays):\n        flat = []\n        for a in arrays or []:\n            flat = a\n        return flat\n\n    def ml_processing_time_stats(self):")],    # ---- hardening round 3: the per-task calculator methods are taken by ROLE (what feeds which key of the per-task record), not by name; the per-task scope may be a helper
+    V("per-task percentile method renamed (benign b7 shape)", "keep", _M, "single_latency", "percentile_stats", count=4),
+    V("percentile_value with float.is_integer() and a guard clause (benign b7 shape)", "keep", _M, _PV_BODY,
+      "        rank = float(percentile) / 100.0 * (len(sorted_values) - 1)\n        if rank.is_integer():\n            return sorted_values[int(rank)]\n        lower_rank = math.floor(rank)\n"
+      "        upper_rank = math.ceil(rank)\n        fraction = rank - lower_rank\n        lower_score = sorted_values[lower_rank]\n        upper_score = sorted_values[upper_rank]\n"
+      "        return lower_score + (upper_score - lower_score) * fraction\n"),
+    V("guard-clause percentile_value interpolating from the upper neighbour's rank", "break", _M, _PV_BODY,
+      "        rank = float(percentile) / 100.0 * (len(sorted_values) - 1)\n        if rank.is_integer():\n            return sorted_values[int(rank)]\n        lower_rank = math.floor(rank)\n"
+      "        upper_rank = math.ceil(rank)\n        fraction = upper_rank - rank\n        lower_score = sorted_values[lower_rank]\n        upper_score = sorted_values[upper_rank]\n"
+      "        return lower_score + (upper_score - lower_score) * fraction\n", "O8.7"),
+    V("summary method renamed (the known finding stays keyed by its role)", "keep", _M, "summary_stats", "throughput_summary", count=2),
+    [V("error-rate method renamed", "keep", _M, "self.error_rate(t, op_type)", "self.task_error_rate(t, op_type)"),
+     V("", "keep", _M, "    def error_rate(self, task_name, operation_type):", "    def task_error_rate(self, task_name, operation_type):")],
+    [V("renamed percentile method queries the warm-up samples", "break", _M, "single_latency", "percentile_stats", "O8.1", count=4),
+     V("", "break", _M, "        sample_type = SampleType.Normal\n", "        sample_type = SampleType.Warmup\n")],
+    [V("renamed percentile method takes the sample size from all samples", "break", _M, "single_latency", "percentile_stats", "O8.1", count=4),
+     V("", "break", _M, "        sample_size = stats[\"count\"] if stats else 0", "        sample_size = len(self.store.get(metric_name, task=task, operation_type=operation_type))")],
+    [V("renamed error-rate method drops the operation type", "break", _M, "self.error_rate(t, op_type)", "self.task_error_rate(t, op_type)", "O8.1"),
+     V("", "break", _M, "    def error_rate(self, task_name, operation_type):\n        return self.store.get_error_rate(task=task_name, operation_type=operation_type, sample_type=SampleType.Normal)",
+       "    def task_error_rate(self, task_name, operation_type):\n        return self.store.get_error_rate(task=task_name, sample_type=SampleType.Normal)")],
+    [V("renamed summary method drops the sample type at one query", "break", _M, "summary_stats", "throughput_summary", "O8.1", count=2),
+     V("", "break", _M, "        median = self.store.get_median(metric_name, task=task_name, operation_type=operation_type, sample_type=SampleType.Normal)",
+       "        median = self.store.get_median(metric_name, task=task_name, operation_type=operation_type)")],
+    V("latency field computed by the summary method (no percentiles)", "break", _M, "                        self.single_latency(t, op_type),\n", "                        self.summary_stats(\"latency\", t, op_type),\n", "O8.3"),
+    V("error-rate field fed from the duration query", "break", _M, "                        error_rate,\n                        duration,\n", "                        duration,\n                        duration,\n", "O8.3"),
+    [V("per-task record assembled in a helper extracted from the loop body", "keep", _M, _TASK_BODY, "                self._add_task_metrics(result, task)\n"),
+     V("", "keep", _M, "    def merge(self, *args):", _TASK_HELPER + "    def merge(self, *args):")],
+    [V("extracted per-task helper: service time and latency exchanged", "break", _M, _TASK_BODY, "                self._add_task_metrics(result, task)\n", "O8.3"),
+     V("", "break", _M, "    def merge(self, *args):", _TASK_HELPER.replace("self.single_latency(t, op_type),\n", "self.single_latency(t, op_type, metric_name=\"service_time\"),\n", 1)
+       .replace("self.single_latency(t, op_type, metric_name=\"service_time\"),\n            self.single_latency(t, op_type, metric_name=\"processing_time\")", "self.single_latency(t, op_type),\n            self.single_latency(t, op_type, metric_name=\"processing_time\")") + "    def merge(self, *args):")],
+    [V("extracted per-task helper: error rate requested for the operation name", "break", _M, _TASK_BODY, "                self._add_task_metrics(result, task)\n", "O8.1"),
+     V("", "break", _M, "    def merge(self, *args):", _TASK_HELPER.replace("error_rate = self.error_rate(t, op_type)", "error_rate = self.error_rate(t, task.operation.name)") + "    def merge(self, *args):")],
+    V("percentile function of the in-memory store renamed", "keep", _M, "percentile_value", "interpolated_percentile", count=2),
+    [V("renamed percentile function with the interpolation weight inverted", "break", _M, "percentile_value", "interpolated_percentile", "O8.7", count=2),
+     V("", "break", _M, "            return lower_score + (higher_score - lower_score) * fr", "            return higher_score + (lower_score - higher_score) * fr")],
+    [V("percentile selector renamed", "keep", _M, "percentiles_for_sample_size", "percentiles_for_count", count=2),
+     V("", "keep", "esrally/reporter.py", "percentiles_for_sample_size", "percentiles_for_count", count=2)],
+    [V("renamed percentile selector with a gap at a threshold", "break", _M, "percentiles_for_sample_size", "percentiles_for_count", "O8.2", count=2),
+     V("", "break", "esrally/reporter.py", "percentiles_for_sample_size", "percentiles_for_count", count=2),
+     V("", "break", _M, "    elif 100 <= sample_size < 1000:", "    elif 100 < sample_size < 1000:")],
+    [V("percentile key encoder renamed", "keep", _M, "encode_float_key", "percentile_key", count=2),
+     V("", "keep", "esrally/reporter.py", "encode_float_key", "percentile_key", count=3)],
+    [V("renamed percentile key encoder drops the fraction (99.9 and 99.99 share the key of 99)", "break", _M, "encode_float_key", "percentile_key", "O8.2", count=2),
+     V("", "break", "esrally/reporter.py", "encode_float_key", "percentile_key", count=3),
+     V("", "break", _M, "    return str(float(k)).replace(\".\", \"_\")", "    return str(int(float(k)))")],
+    [V("race timestamp and results written through locals", "keep", _M, "        d = {\n            \"rally-version\": self.rally_version,", "        timestamp = time.to_iso8601(self.race_timestamp)\n        d = {\n            \"rally-version\": self.rally_version,"),
+     V("", "keep", _M, "            \"race-timestamp\": time.to_iso8601(self.race_timestamp),\n            \"pipeline\"", "            \"race-timestamp\": timestamp,\n            \"pipeline\""),
+     V("", "keep", _M, "            d[\"results\"] = self.results.as_dict()", "            results = self.results.as_dict()\n            d[\"results\"] = results")],
+    [V("race results through a helper method", "keep", _M, "            d[\"results\"] = self.results.as_dict()\n", "            d[\"results\"] = self._results_dict()\n"),
+     V("", "keep", _M, "    def to_result_dicts(self):", "    def _results_dict(self):\n        return self.results.as_dict()\n\n    def to_result_dicts(self):")],
+    [V("race results helper returns the per-task records only", "break", _M, "            d[\"results\"] = self.results.as_dict()\n", "            d[\"results\"] = self._results_dict()\n", "O8.4"),
+     V("", "break", _M, "    def to_result_dicts(self):", "    def _results_dict(self):\n        return {\"op_metrics\": self.results.as_dict()[\"op_metrics\"]}\n\n    def to_result_dicts(self):")],
+    V("race results through a local that drops the empty members", "break", _M, "            d[\"results\"] = self.results.as_dict()",
+      "            results = {k: v for k, v in self.results.as_dict().items() if v}\n            d[\"results\"] = results", "O8.4"),
+    [V("race timestamp written through a local without the conversion", "break", _M, "        d = {\n            \"rally-version\": self.rally_version,", "        timestamp = self.race_timestamp\n        d = {\n            \"rally-version\": self.rally_version,", "O8.4"),
+     V("", "break", _M, "            \"race-timestamp\": time.to_iso8601(self.race_timestamp),\n            \"pipeline\"", "            \"race-timestamp\": timestamp,\n            \"pipeline\"")],
 ]
